@@ -217,8 +217,14 @@ pub mod atomics {
                         Err(old)
                     }
                 }
+                /// may fail spuriously, as the real one may on LL/SC machines (fault kind F13)
                 #[inline]
                 pub fn compare_exchange_weak(&self, cur: $t, new: $t, ok: Ordering, fail: Ordering) -> Result<$t, $t> {
+                    if exec::weak_cas_fails() {
+                        exec::switch(false);
+                        mon::atomic_load(self.addr(), fail);
+                        return Err(unsafe { *self.0.get() });
+                    }
                     self.compare_exchange(cur, new, ok, fail)
                 }
                 pub fn fetch_update(
